@@ -101,6 +101,14 @@ def gen(rng, tier):
             for k in ["bogus", "Weight", "shape_", "nodes2", "TYPE"]:
                 cases.append({"kind": "fields", "cls": cls, "mut": ["add", k], "depth": rng.choice([0, 1, 2]),
                               "via": rng.choice(["dict2node", "graph", "file"]), "seed": seed})
+            # names a later format version or another framework might plausibly store, with "harmless" values
+            for k in rng.sample(["v_reset", "v_rest", "tau_ref", "dt", "spike_grad", "reset", "version", "name", "v_reset"], 3):
+                cases.append({"kind": "fields", "cls": cls, "mut": ["add", k, rng.choice(["zeros", "zero", "none", "empty", "false"])],
+                              "depth": rng.choice([0, 1, 2]), "via": rng.choice(["dict2node", "graph", "file"]), "seed": seed})
+            # an unknown member that is a LINK (soft / second hard link) to a member the node does have
+            for kind in ["soft", "hard"]:
+                cases.append({"kind": "fields", "cls": cls, "mut": ["addlink", "zz_extra" if kind == "hard" else "alias", kind],
+                              "depth": rng.choice([1, 2]), "via": "file", "seed": seed})
     # a path that held a valid file is re-used for a malformed one with the same size and time stamp (cp -p, rsync -t,
     # archive extraction, coarse-grained file systems): strictness must not depend on what was read from that path before
     for cls in (rng.sample(LEGAL, 6) if tier == "quick" else LEGAL * 2):
@@ -270,7 +278,14 @@ def run(c):
             del d[mut[1]]
             expect_ok = not (mut[1] in MANDATORY[c["cls"]] or mut[1] == "type")
         elif mut[0] == "add":
-            d[mut[1]] = np.array([1, 2])
+            kind = mut[2] if len(mut) > 2 else "arr"
+            some = next((v for v in d.values() if isinstance(v, np.ndarray)), np.ones(2))
+            if mut[1] in d:
+                return Outcome(None, None, False, ("present",) + tuple(mut))
+            d[mut[1]] = {"arr": np.array([1, 2]), "zeros": np.zeros_like(some), "zero": 0.0, "none": np.zeros(()), "empty": np.zeros(0),
+                         "false": False}[kind]
+            expect_ok = False
+        elif mut[0] == "addlink":
             expect_ok = False
         want_cls = c["cls"]
     full = wrap(d, depth)
@@ -292,6 +307,15 @@ def run(c):
                 full = wrap(d, max(depth, 1))
                 depth = max(depth, 1)
                 bio = to_file(full, rng.choice(VERSIONS))
+                if c["kind"] == "fields" and c["mut"][0] == "addlink":
+                    with h5py.File(bio, "r+") as f:
+                        path = "node" + "".join(f"/nodes/lvl{i}" for i in reversed(range(depth)))
+                        grp = f[path]
+                        target = next(k for k in grp.keys() if isinstance(grp[k], h5py.Dataset) and k != "type")
+                        if c["mut"][2] == "soft":
+                            grp[c["mut"][1]] = h5py.SoftLink(f"/{path}/{target}")
+                        else:
+                            grp[c["mut"][1]] = grp[target]
                 with h5py.File(bio, "r") as f:
                     coq_in = pyobs.h5_term(f)
                 n = nir.read(bio)
